@@ -6,7 +6,8 @@
 (*           strings by shape (unit-class sequences) as operands and as string tokens,*)
 (*           number tokens by shape (digit runs by length / pattern / binary           *)
 (*           neighbourhood x token forms; mantissa x exponent grid) and the numbers     *)
-(*           they denote as operands.                                                   *)
+(*           they denote as operands; histories (two calls in one context with an edit *)
+(*           of the first result / the operand in between).                             *)
 (*   Laws  : properties of the reference (JsJSON) itself, INVARIANT on every state.   *)
 (*   Judge : records observed on the real engine, judged against JsJSON.              *)
 EXTENDS JsJSON, Json, IOUtils
@@ -16,7 +17,7 @@ Tier == IF "TIER" \in DOMAIN IOEnv THEN IOEnv.TIER ELSE "quick"
 Quick == Tier = "quick"
 \* optional overrides (benchmarks, mutant hunting): C19_CLS / C19_FULL = maximal sequence lengths
 EnvInt(name, dflt) == IF name \in DOMAIN IOEnv THEN DigitsVal(U(IOEnv[name])) ELSE dflt
-\* C19_ONLY = one family root (tokc tokf vgrp sgrp mgrp ngrp): partial runs for benchmarks (the check refuses to give a verdict)
+\* C19_ONLY = one family root (tokc tokf vgrp sgrp mgrp ngrp hgrp): partial runs for benchmarks (the check refuses to give a verdict)
 Only == IF "C19_ONLY" \in DOMAIN IOEnv THEN IOEnv.C19_ONLY ELSE ""
 Want(f) == Only = "" \/ Only = f
 
@@ -331,6 +332,85 @@ NtLawRun == \A g \in NtRunSpecs : /\ 0 \in NtFormsOf(g) /\ NtSignsOf(g, 0) = {0,
 NtLawMut == \A m \in Mutants : \E bi \in 1..Len(MutBases) : m \in MutSetFor(bi)
 NtGridLaw == NtLawMant /\ NtLawExp /\ NtLawForm /\ NtLawRun /\ NtLawMut
 
+\* ---------------- histories: two JSON calls in ONE context, the script edits the first result / operand in between ----
+\* Every other family makes one call on one input.  The property speaks about every text and every value, whatever the
+\* context did before: JSON.parse BUILDS the value of its text (a new structure each time), JSON.stringify prints the value
+\* as it is NOW.  This family has, for every container shape of a grid and every edit (append, overwrite first / last,
+\* truncate, new key, delete first / last key; at the root and in every nested container), the histories
+\*   hp:  r1 = parse(t1); edit r1; r2 = parse(t2)      t2 = t1 | another spelling of the same value | t1 the other spelling
+\*                                                      | a text that contains t1;   also scalars and rejected texts as t1
+\*   hs:  s1 = stringify(v); edit v; s2 = stringify(v)
+\* observed: both results, r1 / v re-read after the second call, whether r1 and r2 share a container (===).
+HX == VStr(U("x"))
+HNew == VArr(<<VInt(9)>>)
+HKZ == U("z")
+\* quick: a scalar, the empty and a non-empty container of both kinds; thorough: further scalars and containers of depth 2 (paths of length 2)
+HistKids == {VInt(1), VArr(<<>>), VObj(<<>>), VArr(<<VInt(2)>>), VObj(<<[n |-> KB, v |-> VInt(3)]>>)}
+                \cup (IF Quick THEN {} ELSE {VStr(U("s")), Null, VArr(<<VArr(<<VInt(4)>>), VInt(5)>>),
+                                            VObj(<<[n |-> KA, v |-> VObj(<<[n |-> KB, v |-> VInt(5)]>>)]>>)})
+HistVals == Lvl(HistKids)
+HistOddTexts == {U("1"), U("\"s\""), UNull, UTrue, U("-0"), U("[1,]"), U("{\"a\":1,}"), U("["), U("{\"a\":[1]"), <<>>}
+HOps == {"none", "push", "seti", "trunc", "put", "del"}
+HRels == {"same", "ws", "wsfirst", "other"}
+HEd(op, path, n, i, x) == [op |-> op, path |-> path, n |-> n, i |-> i, x |-> x]
+HNone == HEd("none", <<>>, <<>>, 0, HX)
+HIsCont(v) == v.k \in {"arr", "obj"}
+HWidth(v) == IF v.k = "arr" THEN Len(v.e) ELSE Len(v.p)
+HKid(v, j) == IF v.k = "arr" THEN v.e[j] ELSE v.p[j].v
+HStep(v, j) == IF v.k = "arr" THEN [a |-> "i", i |-> j - 1, n |-> <<>>] ELSE [a |-> "k", i |-> 0, n |-> v.p[j].n]
+\* the edits of the container v that the script reaches by path
+HEditsAt(v, path) ==
+  IF v.k = "arr"
+  THEN {HEd("push", path, <<>>, 0, HNew), HEd("seti", path, <<>>, Len(v.e), HX)}
+         \cup (IF Len(v.e) > 0 THEN {HEd("seti", path, <<>>, 0, HX), HEd("seti", path, <<>>, Len(v.e) - 1, HNew), HEd("trunc", path, <<>>, 0, HX)} ELSE {})
+  ELSE {HEd("put", path, HKZ, 0, HNew)}
+         \cup (IF Len(v.p) > 0 THEN {HEd("put", path, v.p[1].n, 0, HX), HEd("put", path, v.p[Len(v.p)].n, 0, HNew),
+                                     HEd("del", path, v.p[1].n, 0, HX), HEd("del", path, v.p[Len(v.p)].n, 0, HX)} ELSE {})
+RECURSIVE HEditsIn(_, _)
+HEditsIn(v, path) == IF ~HIsCont(v) THEN {}
+                     ELSE HEditsAt(v, path) \cup UNION {HEditsIn(HKid(v, j), Append(path, HStep(v, j))) : j \in 1..HWidth(v)}
+HEdits(v) == {HNone} \cup HEditsIn(v, <<>>)
+\* the value after the edit (reference semantics of push / indexed store / length = 0 / keyed store / delete on plain data)
+RECURSIVE HApply(_, _, _)
+HApply(v, path, ed) ==
+  IF Len(path) = 0
+  THEN CASE ed.op = "push" -> VArr(Append(v.e, ed.x))
+         [] ed.op = "seti" -> IF ed.i < Len(v.e) THEN VArr([j \in 1..Len(v.e) |-> IF j = ed.i + 1 THEN ed.x ELSE v.e[j]]) ELSE VArr(Append(v.e, ed.x))
+         [] ed.op = "trunc" -> VArr(<<>>)
+         [] ed.op = "put" -> IF \E j \in 1..Len(v.p) : v.p[j].n = ed.n
+                             THEN VObj([j \in 1..Len(v.p) |-> IF v.p[j].n = ed.n THEN [n |-> ed.n, v |-> ed.x] ELSE v.p[j]])
+                             ELSE VObj(Append(v.p, [n |-> ed.n, v |-> ed.x]))
+         [] ed.op = "del" -> VObj(SelectSeq(v.p, LAMBDA q : q.n # ed.n))
+         [] OTHER -> v
+  ELSE LET st == path[1]  rest == SubSeq(path, 2, Len(path)) IN
+       IF st.a = "i" THEN VArr([j \in 1..Len(v.e) |-> IF j = st.i + 1 THEN HApply(v.e[j], rest, ed) ELSE v.e[j]])
+       ELSE VObj([j \in 1..Len(v.p) |-> IF v.p[j].n = st.n THEN [n |-> st.n, v |-> HApply(v.p[j].v, rest, ed)] ELSE v.p[j]])
+HCanon(v) == JStringify(v, {}, TRUE).v.u
+\* another spelling of the same value: white space around the value and inside the outermost container
+HWs(c) == IF Len(c) >= 2 /\ c[1] \in {91, 123} THEN <<32, c[1], 10>> \o SubSeq(c, 2, Len(c) - 1) \o <<9, c[Len(c)], 13>>
+          ELSE <<32>> \o c \o <<10>>
+HPair(c, rel) == CASE rel = "same" -> <<c, c>> [] rel = "ws" -> <<c, HWs(c)>> [] rel = "wsfirst" -> <<HWs(c), c>>
+                   [] OTHER -> <<c, <<91>> \o c \o <<93>>>>
+HOpIdx(op) == CASE op = "none" -> 0 [] op = "push" -> 1 [] op = "seti" -> 2 [] op = "trunc" -> 3 [] op = "put" -> 4 [] OTHER -> 5
+HRot(v, ed) == Nodes(v) + Len(ed.path) + ed.i + Len(ed.n) + HOpIdx(ed.op)
+\* quick: the equal text for every (shape, edit), one of the three other relations by rotation; thorough: all four
+HRelsOf(v, ed) == IF ~Quick THEN HRels ELSE {"same", CASE HRot(v, ed) % 3 = 0 -> "ws" [] HRot(v, ed) % 3 = 1 -> "wsfirst" [] OTHER -> "other"}
+HistGroups == {<<"v", v>> : v \in HistVals} \cup {<<"t", t>> : t \in HistOddTexts}
+HpCases(g) ==
+  IF g[1] = "v"
+  THEN LET c == HCanon(g[2]) IN
+       UNION {{LET tt == HPair(c, rel) IN [t |-> tt[1], ed |-> ed, t2 |-> tt[2]] : rel \in HRelsOf(g[2], ed)} : ed \in HEdits(g[2])}
+  ELSE {LET tt == HPair(g[2], rel) IN [t |-> tt[1], ed |-> HNone, t2 |-> tt[2]] : rel \in HRels}
+         \cup {[t |-> g[2], ed |-> HNone, t2 |-> U("{\"a\":[1]}")], [t |-> U("{\"a\":[1]}"), ed |-> HNone, t2 |-> g[2]]}
+HsCases(g) == IF g[1] = "v" THEN {[v |-> g[2], ed |-> ed] : ed \in HEdits(g[2])} ELSE {}
+\* the quick sub-grid contains every edit at the root and in a nested container, of arrays and of objects, under every relation
+HEdClass(v, ed) == <<ed.op, IF Len(ed.path) = 0 THEN 0 ELSE 1>>
+HistGridLaw ==
+  /\ \A op \in HOps \ {"none"} : \A d \in {0, 1} : \A rel \in HRels :
+       \E v \in HistVals : \E ed \in HEdits(v) : HEdClass(v, ed) = <<op, d>> /\ rel \in HRelsOf(v, ed)
+  /\ \A rk \in {"arr", "obj"} : \A nk \in {"arr", "obj"} : \E v \in HistVals : v.k = rk /\ \E ed \in HEdits(v) :
+       Len(ed.path) = 1 /\ HKid(v, IF ed.path[1].a = "i" THEN ed.path[1].i + 1 ELSE CHOOSE j \in 1..Len(v.p) : v.p[j].n = ed.path[1].n).k = nk
+
 \* ---------------- Enum: a tree of states, one printed case per leaf state ---------------------------------
 VARIABLES ph, cur, rec_i          \* rec_i: never a name that library operators bind
 vars == <<ph, cur, rec_i>>
@@ -345,6 +425,7 @@ EnumNext ==
            \/ (Want("sgrp") /\ ph' = "sv" /\ \E v \in StrUnitCases : cur' = v)
            \/ (Want("mgrp") /\ ph' = "mgrp" /\ \E g \in MutGroups : cur' = g)
            \/ (Want("ngrp") /\ ph' = "ngrp" /\ \E g \in NtGroups : cur' = g)
+           \/ (Want("hgrp") /\ ph' = "hgrp" /\ \E g \in HistGroups : cur' = g)
      \/ /\ ph = "tokc" /\ Len(cur) < MaxClassLen /\ ph' = ph
         /\ (Len(cur) < ClassFullLen \/ JViablePrefix(ClassText(cur)))
         /\ \E c \in 1..NClasses : cur' = Append(cur, c)
@@ -361,11 +442,16 @@ EnumNext ==
      \/ /\ ph = "ngrp"
         /\ \/ (ph' = "nt" /\ \E t \in NtTexts(cur) : cur' = t)
            \/ (ph' = "nv" /\ \E v \in NvCases(cur) : cur' = v)
+     \/ /\ ph = "hgrp"
+        /\ \/ (ph' = "hp" /\ \E c \in HpCases(cur) : cur' = c)
+           \/ (ph' = "hs" /\ \E c \in HsCases(cur) : cur' = c)
 IsTextState == ph \in {"tokc", "tokf", "mut", "st", "nt"}
 IsValState == ph \in {"val", "sv", "nv"}
 TextOf == CASE ph = "tokc" -> ClassText(cur) [] ph = "tokf" -> FullText(cur) [] OTHER -> cur
 EnumEmit == CASE IsTextState -> PrintT(ToJson([kind |-> "parse", fam |-> ph, t |-> TextOf]))
               [] IsValState -> PrintT(ToJson([kind |-> "str", fam |-> ph, v |-> cur]))
+              [] ph = "hp" -> PrintT(ToJson([kind |-> "hp", fam |-> ph, t |-> cur.t, ed |-> cur.ed, t2 |-> cur.t2]))
+              [] ph = "hs" -> PrintT(ToJson([kind |-> "hs", fam |-> ph, v |-> cur.v, ed |-> cur.ed]))
               [] OTHER -> TRUE
 
 \* ---------------- Laws of the reference ------------------------------------------------------------------
@@ -404,9 +490,26 @@ NumLaw == \A w \in FastNums :
             /\ JParse(JNumToString(w), {}).v.w = (IF w = WNegZero THEN WPosZero ELSE w)
             /\ JNumSlow(JNumToString(w)) = (IF w = WNegZero THEN WPosZero ELSE w)
             /\ JPyRepr(w, FALSE) = JNumToString(w)
+\* laws of a history case: the texts denote what the case says, an edit is visible (the case can tell a result that is built
+\* anew from one that is handed out again), edited values stay plain data
+HpLaw(c) ==
+  LET p1 == JParse(c.t, {})  p2 == JParse(c.t2, {}) IN
+  /\ (c.ed.op # "none") => (p1.o = "value" /\ HIsCont(p1.v))
+  /\ (c.ed.op # "none") =>
+       LET a == HApply(p1.v, c.ed.path, c.ed) IN
+       /\ ~SameVal(a, p1.v) /\ JWellFormed(a, 0) /\ JRepresentable(a)
+       /\ (p2.o = "value" => ~SameVal(a, p2.v))
+  /\ (c.t2 = c.t) => p2 = p1
+HsLaw(c) ==
+  LET a == HApply(c.v, c.ed.path, c.ed) IN
+  /\ JWellFormed(a, 0)
+  /\ (c.ed.op # "none") => (~SameVal(a, c.v) /\ JStringify(a, {}, FALSE) # JStringify(c.v, {}, FALSE))
+  /\ ValueLaw(a)
 LawsHold == CASE IsTextState -> LET txt == TextOf IN TextLaw(txt)
               [] IsValState -> ValueLaw(cur)
-              [] ph = "start" -> NumLaw /\ NtGridLaw
+              [] ph = "start" -> NumLaw /\ NtGridLaw /\ HistGridLaw
+              [] ph = "hp" -> HpLaw(cur) /\ TextLaw(cur.t) /\ TextLaw(cur.t2)
+              [] ph = "hs" -> HsLaw(cur)
               [] OTHER -> TRUE
 
 \* ---------------- Judge ----------------------------------------------------------------------------------
@@ -489,7 +592,27 @@ StrExplain(r, v) ==
 Alts(S) == IF S = {} THEN <<>>
            ELSE LET least == CHOOSE n \in 1..Cardinality(AllDevs) : (\E x \in S : Cardinality(x) = n) /\ (\A y \in S : Cardinality(y) >= n)
                 IN SX!SetToSeq({SX!SetToSeq(x) : x \in {y \in S : Cardinality(y) = least}})
+\* history records [id, kind |-> "hp", t, ed, t2, p1, p2, rt2, after1, alias, edit, esc] / [kind |-> "hs", v, ed, p1, p2, after1, edit, esc]
+\* p1 / p2: the two calls; after1: the first result (hp) / the operand (hs) re-read after the second call; alias: the two parse
+\* results share a container; edit: "ok" | "none" | the class the edit threw; esc: class of an exception that left the script
+HistOK(r, e) == /\ OutMatches(r.p1, e.p1) /\ OutMatches(r.p2, e.p2) /\ OutMatches(r.after1, e.after1)
+                /\ r.edit = e.edit /\ r.esc = e.esc
+                /\ (r.kind = "hp" => (OutMatches(r.rt2, e.rt2) /\ r.alias = e.alias))
+HpExp(r) ==
+  LET p1 == JParse(r.t, {})  p2 == JParse(r.t2, {})
+      applies == r.ed.op # "none" /\ p1.o = "value" /\ HIsCont(p1.v) IN
+  [p1 |-> p1, p2 |-> p2, rt2 |-> IF p2.o = "value" THEN JStringify(p2.v, {}, TRUE) ELSE JNone,
+   after1 |-> IF p1.o = "value" THEN JVal(IF applies THEN HApply(p1.v, r.ed.path, r.ed) ELSE p1.v) ELSE JNone,
+   alias |-> FALSE, edit |-> IF applies THEN "ok" ELSE "none", esc |-> ""]
+HsExp(r) ==
+  LET a == IF r.ed.op # "none" THEN HApply(r.v, r.ed.path, r.ed) ELSE r.v IN
+  [p1 |-> JStringify(r.v, {}, FALSE), p2 |-> JStringify(a, {}, FALSE), rt2 |-> JNone, after1 |-> JVal(a),
+   alias |-> FALSE, edit |-> IF r.ed.op # "none" THEN "ok" ELSE "none", esc |-> ""]
+HistVerdict(r) ==
+  LET e == IF r.kind = "hp" THEN HpExp(r) ELSE HsExp(r) IN
+  IF HistOK(r, e) THEN [v |-> "pass", alts |-> <<>>, exp |-> JNone] ELSE [v |-> "mismatch", alts |-> <<>>, exp |-> e]
 Verdict(r) ==
+  IF r.kind \in {"hp", "hs"} THEN HistVerdict(r) ELSE
   IF r.kind = "parse"
   THEN LET ref == ParsePred(r.t, {}) IN
        IF ParseOK(r, ref) THEN [v |-> "pass", alts |-> <<>>, exp |-> JNone]
